@@ -81,6 +81,14 @@ mut("C08-revert-java-order", "java/genjava.c",
     "	for (tl = types; tl != listNil(JavaCode); tl = cdr(tl)) {\n		JavaCode type = car(tl);",
     "	{ TableIterator it; types = listNil(JavaCode); for (tblITER(it, tbl); tblMORE(it); tblSTEP(it)) types = listCons(JavaCode)((JavaCode) tblKEY(it), types); }\n	for (tl = types; tl != listNil(JavaCode); tl = cdr(tl)) {\n		JavaCode type = car(tl);")
 
+# ---------------------------------------------------------------- C13 -------
+mut("C13-no-undo-after-tinfer-error", "axlcomp.c",
+    "	compPhaseTInfer (finfo, stab, ab);\n	if (comsgErrorCount())	{\n		if (fintMode == FINT_LOOP) scoSetUndoState();\n		return ab;",
+    "	compPhaseTInfer (finfo, stab, ab);\n	if (comsgErrorCount())	{\n		return ab;")
+mut("C13-revert-verbose-stdout-fix", "fintphase.c",
+    "	else if (stabGetMeanings(stab, ablogFalse(), ssymTheStdout) == listNil(Syme))",
+    "	else if (false)")
+
 
 def main():
     out = os.path.join(os.path.dirname(os.path.abspath(__file__)), "mutants")
